@@ -11,6 +11,7 @@ import (
 	"encoding/json"
 	"fmt"
 	"os"
+	"path/filepath"
 	"strings"
 	"time"
 
@@ -191,11 +192,21 @@ func wireAlloc(real bool) {
 	}
 }
 
-func waitSave(db *utxo.UnspentDB) bool {
+// waitSave waits until the background save started by Idle() is complete *on disk*. save() clears
+// WritingInProgress before its file goroutine has flushed, closed and renamed <hash>.db.tmp to
+// UTXO.db (only Close() waits for that, through the unexported lastFileClosed), so the monitor also
+// waits until UTXO.db is a new file (not the one seen before Idle) and no *.db.tmp is left.
+// Otherwise the next save() finds no UTXO.db to rename to UTXO.old, and which files exist afterwards
+// depends on goroutine scheduling.
+func waitSave(db *utxo.UnspentDB, dir string, before os.FileInfo) bool {
 	db.HurryUp()
 	for i := 0; i < 120000; i++ {
 		if !db.WritingInProgress.Get() {
-			return true
+			fi, err := os.Stat(dir + "UTXO.db")
+			tmps, _ := filepath.Glob(dir + "*.db.tmp")
+			if err == nil && len(tmps) == 0 && (before == nil || !os.SameFile(before, fi)) {
+				return true
+			}
 		}
 		time.Sleep(time.Millisecond)
 	}
@@ -250,9 +261,14 @@ func snapWrite(a *snapArgs) {
 		rep.Applied++
 		done := i + 1
 		if (a.Save == "idle-close" || a.Save == "idle-abort-exit") && done == a.K {
+			before, _ := os.Stat(a.Dir + "UTXO.db")
 			ok := db.Idle()
 			rep.IdleReturned = append(rep.IdleReturned, ok)
-			rep.SaveCompleted = append(rep.SaveCompleted, waitSave(db))
+			if ok {
+				rep.SaveCompleted = append(rep.SaveCompleted, waitSave(db, a.Dir, before))
+			} else {
+				rep.SaveCompleted = append(rep.SaveCompleted, false)
+			}
 		}
 		if a.Save == "idle-abort-exit" && done == a.M {
 			rep.IdleReturned = append(rep.IdleReturned, db.Idle())
@@ -740,8 +756,8 @@ func (s *snapRunner) runScenario(sc *scenario) {
 		if !ok {
 			return
 		}
-		if len(rep.SaveCompleted) > 0 && !rep.SaveCompleted[0] {
-			run.Inconclusive("background save did not complete within the watchdog %v", sc)
+		if len(rep.SaveCompleted) == 0 || !rep.SaveCompleted[0] {
+			run.Inconclusive("background save was not observed complete on disk %v", sc)
 			return
 		}
 		if len(rep.IdleReturned) == 0 || !rep.IdleReturned[0] {
@@ -766,7 +782,11 @@ func (s *snapRunner) runScenario(sc *scenario) {
 			run.Count("scenario_E_skipped_short_plan", 1)
 			return
 		}
-		if _, ok := write("write-idle-abort-exit", func(a *snapArgs) { a.A, a.B = 0, nb; a.Save = "idle-abort-exit"; a.K = k; a.M = m }); ok {
+		if rep, ok := write("write-idle-abort-exit", func(a *snapArgs) { a.A, a.B = 0, nb; a.Save = "idle-abort-exit"; a.K = k; a.M = m }); ok {
+			if len(rep.SaveCompleted) == 0 || !rep.SaveCompleted[0] {
+				run.Inconclusive("first background save was not observed complete on disk %v", sc)
+				return
+			}
 			read("reopen-after-death", []int{k, m}, 0, false)
 		}
 	case "F-only-old-stray-tmp":
@@ -787,8 +807,8 @@ func (s *snapRunner) runScenario(sc *scenario) {
 		if !ok {
 			return
 		}
-		if len(rep.SaveCompleted) > 0 && !rep.SaveCompleted[0] {
-			run.Inconclusive("background save did not complete within the watchdog %v", sc)
+		if len(rep.SaveCompleted) == 0 || !rep.SaveCompleted[0] {
+			run.Inconclusive("background save was not observed complete on disk %v", sc)
 			return
 		}
 		fi, err := os.Stat(dir + "UTXO.db")
